@@ -32,7 +32,7 @@ template <class G> struct C05 {
     bool eq = vf::bits_equal(a, b);
     ++R.transitions;
     if (eq) R.count("forwarded_jacobian_bit_identical");
-    ref::Real d = eq ? 0 : (ref::Real)(a - b).cwiseAbs().maxCoeff() / std::max((ref::Real)1, (ref::Real)b.cwiseAbs().maxCoeff());
+    ref::Real d = eq ? 0 : (ref::Real)vf::maxabs((a - b)) / std::max((ref::Real)1, (ref::Real)vf::maxabs(b));
     if (!(d == d)) d = INFINITY;
     if (!R.judge(name, d, B::B1, key)) R.fail(name, std::string(name) + "/" + key, d, B::B1, "{" + vf::kv("got", vf::decmat(a)) + "," + vf::kv("canonical", vf::decmat(b)) + "}");
   }
@@ -164,7 +164,7 @@ template <class G> struct C05 {
     ++R.states;
     Eigen::Matrix<S, G::Dim, G::DoF> Jm; Eigen::Matrix<S, G::Dim, G::Dim> Jv;
     X.act(p, Jm, Jv);
-    ref::Real L = std::max(g.lin_scale_M(Mx), std::max((ref::Real)1, pl.cwiseAbs().maxCoeff()));
+    ref::Real L = std::max(g.lin_scale_M(Mx), std::max((ref::Real)1, vf::maxabs(pl)));
     std::string dd = "{" + vf::kv("X", vf::hexvec(X.coeffs())) + "," + vf::kv("X_dec", vf::decvec(X.coeffs())) + "," + vf::kv("p", vf::hexvec(p));
     judgeJ("J_act_wrt_X", Jm, ref::fd_jacobian(SG, SP, [&](const ref::Mat& M) { return col(g.act(M, pl)); }, Mx, h, L), SP, SG, L, key, dd);
     judgeJ("J_act_wrt_p", Jv, ref::fd_jacobian(SP, SP, [&](const ref::Mat& v) { return col(g.act(Mx, ref::Vec(v.col(0)))); }, col(pl), h, L), SP, SP, L, key, dd);
